@@ -165,6 +165,11 @@ def run(chk, replay=None):
         except Exception:
             pass
     chk.streams.append({'stream': 'Atlas input with --encrypt: key-creating run vs next run vs placeholder run', 'hosts': 2, 'lines': len(alines)})
+    # the whole command (Model/Job.v: main.go's Run end to end) against the CLI on small worlds: exit status, file system and standard output
+    from vlib import joblib
+    jrng = random.Random(chk.seed * 7919 + 1010)
+    jpool = [l for l, _ in streams.grammar_lines(jrng, 25, 0.1) + streams.fixture_lines()[:8]]
+    joblib.correspondence(chk, jrng, 240 if chk.tier == 'thorough' else 90, jpool)
     chk.sample({'flags': flagsets[1], 'input': lines[31].decode('utf-8', 'replace')[:500]})
     chk.assumptions += ["AES-SIV (Tink) is abstract in the model: the theorem holds for every encryption function; injectivity is derived from decryptability",
                         "ciphertexts for the model side are computed with the repository's Encrypt through the harness"]
